@@ -3,6 +3,8 @@ package main
 import (
 	"fmt"
 	"go/types"
+	"os"
+	"regexp"
 	"strings"
 )
 
@@ -119,12 +121,69 @@ func (env *specEnv) expandPure(g *GhostFunc, args []specVal) specVal {
 	c.letDepth = env.letDepth + 1
 	c.pkg = env.vc.pkgByShort(g.Pkg)
 	m := map[string]specVal{}
+	// long argument terms are bound once with an SMT let instead of being copied to
+	// every occurrence of the parameter (nested expansions under quantifiers grew
+	// the text multiplicatively)
+	var lets []string
 	for i, p := range g.Params {
-		m[p] = args[i]
+		a := args[i]
+		if len(a.T) > 80 && os.Getenv("GOVC_NO_LET") == "" {
+			env.vc.ctr++
+			nm := fmt.Sprintf("lp!%d", env.vc.ctr)
+			lets = append(lets, "("+nm+" "+a.T+")")
+			a.T = nm
+		}
+		m[p] = a
 	}
 	// parameters shadow everything; other names of the caller stay invisible
 	c.names = map[string]*specBinding{}
 	c.lets = nil
 	c.bound = append(append([]map[string]specVal{}, env.bound...), m)
-	return c.tr(g.Body)
+	res := c.tr(g.Body)
+	if len(lets) > 0 {
+		if !isAtom(res.T) {
+			res.T = "(let (" + strings.Join(lets, " ") + ") " + res.T + ")"
+		} else {
+			for _, l := range lets { // the body is just one of its parameters
+				if strings.HasPrefix(l, "("+res.T+" ") {
+					res.T = l[len(res.T)+2 : len(l)-1]
+				}
+			}
+		}
+	}
+	// A large closed expansion (no free quantifier variable) is named once per VC and
+	// referred to by name afterwards: invariants such as authWF(v) are assumed and
+	// proved at dozens of program points, and their text dominated the query size.
+	if len(res.T) > 400 && res.Sort != "" && os.Getenv("GOVC_NO_MEMO") == "" && closedTerm(res.T) {
+		vc := env.vc
+		if vc.macroMemo == nil {
+			vc.macroMemo = map[string]string{}
+		}
+		if n, ok := vc.macroMemo[res.T]; ok {
+			res.T = n
+		} else {
+			n := vc.define("m_"+g.Name, res.Sort, res.T)
+			vc.macroMemo[res.T] = n
+			res.T = n
+		}
+	}
+	return res
+}
+
+// quantifier variables (q_<name>!n) and let-bound macro parameters (lp!n)
+var qvarRe = regexp.MustCompile(`\b(q_[A-Za-z0-9_]+|lp)![0-9]+`)
+
+// closedTerm: every quantifier variable mentioned in the term is bound inside it.
+func closedTerm(t string) bool {
+	seen := map[string]bool{}
+	for _, v := range qvarRe.FindAllString(t, -1) {
+		if seen[v] {
+			continue
+		}
+		seen[v] = true
+		if !strings.Contains(t, "(("+v+" ") && !strings.Contains(t, " ("+v+" ") {
+			return false
+		}
+	}
+	return true
 }
